@@ -180,6 +180,17 @@ bool BotanSymmetricAlgorithm::encryptInit(const SymmetricKey* key, const SymMode
 			filter->set_iv(botanIV);
 			cryption = new Botan::Pipe(filter);
 		}
+		else if (mode == SymMode::ECB)
+		{
+			// Botan 2 has no ECB cipher mode; use the implementation in Botan_ecb.h
+			const std::vector<std::string> algo_parts = split_on_delim(cipherName, '/');
+			const std::string cipher_name = algo_parts[0];
+			bool with_pkcs7_padding = (algo_parts.size() == 3 && algo_parts[2] == "PKCS7");
+			std::unique_ptr<Botan::BlockCipher> bc(Botan::BlockCipher::create(cipher_name));
+			Botan::Keyed_Filter* cipher = new Botan::Cipher_Mode_Filter(new Botan::ECB_Encryption(bc.release(), with_pkcs7_padding));
+			cipher->set_key(botanKey);
+			cryption = new Botan::Pipe(cipher);
+		}
 		else
 		{
 			Botan::InitializationVector botanIV = Botan::InitializationVector(IV.const_byte_str(), IV.size());
@@ -395,6 +406,17 @@ bool BotanSymmetricAlgorithm::decryptInit(const SymmetricKey* key, const SymMode
 			Botan::Keyed_Filter* filter = new Botan::Cipher_Mode_Filter(aead);
 			filter->set_iv(botanIV);
 			cryption = new Botan::Pipe(filter);
+		}
+		else if (mode == SymMode::ECB)
+		{
+			// Botan 2 has no ECB cipher mode; use the implementation in Botan_ecb.h
+			const std::vector<std::string> algo_parts = split_on_delim(cipherName, '/');
+			const std::string cipher_name = algo_parts[0];
+			bool with_pkcs7_padding = (algo_parts.size() == 3 && algo_parts[2] == "PKCS7");
+			std::unique_ptr<Botan::BlockCipher> bc(Botan::BlockCipher::create(cipher_name));
+			Botan::Keyed_Filter* cipher = new Botan::Cipher_Mode_Filter(new Botan::ECB_Decryption(bc.release(), with_pkcs7_padding));
+			cipher->set_key(botanKey);
+			cryption = new Botan::Pipe(cipher);
 		}
 		else
 		{
